@@ -330,6 +330,40 @@ Boot(P, C, image) ==
    svc |-> <<0, 0>>, charout |-> FALSE, freemem |-> {}, prompted |-> FALSE]
 
 (***************************************************************************)
+(* The command line (src/bin.rs).  argv = the arguments after the program  *)
+(* name, each [k |-> "flag", name] or [k |-> "file", state] where state    *)
+(* says what the path names: "text" (a readable text file), "missing",     *)
+(* "dir" (a directory) or "binary" (a file that is not valid UTF-8).       *)
+(* Outcome:                                                                *)
+(*   [k |-> "usage"]            the argument parser refuses (unknown flag, *)
+(*                              a second file, -i twice): non-zero status, *)
+(*                              nothing on stdout, nothing runs            *)
+(*   [k |-> "info"]             -h / --help / -V / --version: status 0,    *)
+(*                              nothing runs                               *)
+(*   [k |-> "exit1", out, ..]   a message on stdout, status 1, nothing runs*)
+(*   [k |-> "run", interp]      the program in the file is run             *)
+(* The position of -i / --interpreted relative to the file does not matter.*)
+(***************************************************************************)
+InterpFlags == {"-i", "--interpreted"}
+InfoFlags == {"-h", "--help", "-V", "--version"}
+Many(S) == \E x, y \in S : x # y
+CmdLine(argv) ==
+  LET idx == 1 .. Len(argv)
+      files == {j \in idx : argv[j].k = "file"}
+      iflags == {j \in idx : argv[j].k = "flag" /\ argv[j].name \in InterpFlags}
+      info == {j \in idx : argv[j].k = "flag" /\ argv[j].name \in InfoFlags}
+      unknown == {j \in idx : argv[j].k = "flag" /\ argv[j].name \notin InterpFlags \cup InfoFlags}
+      first == CHOOSE j \in files : \A j2 \in files : j <= j2
+  IN IF info # {} /\ \A j \in unknown \cup (IF Many(files) THEN files ELSE {}) \cup (IF Many(iflags) THEN iflags ELSE {}) : \E h \in info : h < j
+       THEN [k |-> "info"]            \* (the argument parser stops at the first -h / -V it meets)
+     ELSE IF unknown # {} \/ Many(files) \/ Many(iflags) THEN [k |-> "usage"]
+     ELSE IF info # {} THEN [k |-> "info"]
+     ELSE IF files = {} THEN [k |-> "exit1", out |-> MsgNoFile, exact |-> TRUE]
+     ELSE CASE argv[first].state = "missing" -> [k |-> "exit1", out |-> MsgMissingFile, exact |-> TRUE]
+            [] argv[first].state \in {"dir", "binary"} -> [k |-> "exit1", out |-> MsgReadError, exact |-> FALSE]
+            [] OTHER -> [k |-> "run", interp |-> iflags # {}]
+
+(***************************************************************************)
 (* The driver as a transition relation                                     *)
 (***************************************************************************)
 ApplyRes(m, r) == [m EXCEPT !.regs = r.regs, !.flags = r.flags, !.mem = r.writes @@ m.mem, !.stack = r.stack]
